@@ -793,3 +793,14 @@ def s3_iter_recording_ids(props=None):
                            z3.Or(z3.And(lim != NONE, cnt == lim), z3.Length(s.seq(lst)) == 0), oc))
         obl.append(Obl('C15/%s/never_mutates_the_bucket' % U, ('C15', 'C10'), s, z3.BoolVal(len(s.g['blog']) == 0), oc))
     return [info], obl, {'paths': len(paths), 'forks': ex.forks}
+
+
+def s3_storage_class(props=None):
+    repo, spec, ex, st, selfv, fr, node, info, kp, ro, tr = s3_state(S3 + '_calculate_storage_class', ['recording_size'])
+    sz = fr['recording_size']; st.assume(z3.And(Val.is_i(sz), Val.iv(sz) >= 0)); thr = st.rd(selfv, 'infrequent_access_threshold'); obl = []; n = 0
+    for s, oc in ex.block(node.body, st):
+        n += 1
+        ia = z3.And(thr != NONE, num(thr) != 0, num(sz) >= num(thr))
+        obl.append(Obl('C15/S3TapeCassette._calculate_storage_class/standard_ia_iff_at_or_above_the_threshold', ('C15', 'C07'), s,
+                       z3.And(z3.BoolVal(oc[0] == 'return'), oc[1] == z3.If(ia, S('STANDARD_IA'), S('STANDARD'))) if oc[0] == 'return' else z3.BoolVal(False), oc))
+    return [info], obl, {'paths': n, 'forks': ex.forks}
